@@ -155,7 +155,7 @@ fn c20(r: &mut Report) {
         Item::Rand(k, seed) => rand_lazy_check(*k, *seed, if *k % 8 == 7 { 2 } else { 40 }, acc),
         Item::CrossProcess(seed) => {
             // the same history in three fresh processes (different ASLR, hasher keys) must give identical orders
-            let exe = std::env::current_exe().expect("exe");
+            let exe = vcore::util::self_exe();
             let mut outs = vec![];
             for _ in 0..3 {
                 let o = Command::new(&exe).args(["c20order", &seed.to_string()]).output();
